@@ -82,6 +82,9 @@ def handle : Handler
         if observed == "equal" then "holds"
         else if e.historyOK tbl fuel then "fails model=history-independent observed=" ++ observed
         else "fails model=" ++ (e.whyNot tbl).replace " " "_" ++ " observed=" ++ observed
+  | "c16.setparam", [n, name] => some <| match findEst n with
+      | none => "no-such-class"
+      | some e => if e.setParamAccepted name then "ok" else "err ValueError"
   | "c16.setable", [n] => some <| match findEst n with
       | none => "no-such-class"
       | some e => showStrs e.setable
